@@ -313,6 +313,7 @@ class DumperSummary:
     extra_source: Optional[str] = None
     stores_into_data: List[Tuple[str, int]] = field(default_factory=list)
     containers_created: Dict[str, str] = field(default_factory=dict)
+    extra_stack_sources: List[Tuple[Optional[str], str, bool, int]] = field(default_factory=list)  # (field, access, dumped, line)
     trails: List[Tuple[str, Any, int]] = field(default_factory=list)
     problems: List[Tuple[str, int]] = field(default_factory=list)
 
@@ -464,6 +465,15 @@ def audit_dumper(fn: ast.FunctionDef) -> DumperSummary:
             S.return_expr = norm(st.value)
         elif isinstance(st, ast.Expr) and isinstance(st.value, ast.Call):
             c = st.value
+            if isinstance(c.func, ast.Attribute) and norm(c.func.value) == "extra_stack":
+                if c.func.attr != "append" or len(c.args) != 1:
+                    S.problems.append((f"unexpected operation on extra_stack: {norm(st)[:80]}", st.lineno))
+                else:
+                    af = access_field(c.args[0])
+                    if af is None:
+                        S.problems.append((f"unrecognised extras extraction {norm(st)[:80]}", st.lineno))
+                    else:
+                        S.extra_stack_sources.append((af[0], af[1], last_dumped, st.lineno))
             if isinstance(c.func, ast.Attribute) and norm(c.func.value) == "data" and c.func.attr in (
                     "pop", "popitem", "clear", "update", "setdefault", "append", "remove", "sort", "reverse", "__setitem__"):
                 S.stores_into_data.append((norm(st), st.lineno))
